@@ -156,7 +156,9 @@ type recConn struct {
 
 func (c *recConn) Read(b []byte) (int, error) { return 0, io.EOF }
 func (c *recConn) Write(b []byte) (int, error) {
-	c.e.GA.CheckLive(b, "freed-buffer-handed-to-conn-write")
+	if !c.e.GA.CheckLive(b, "freed-buffer-handed-to-conn-write") && c.e.GA.FaultMode() {
+		return len(b), nil // the bytes are inaccessible
+	}
 	if c.out.Closed > 0 {
 		c.out.WritesAfter++
 		return 0, net.ErrClosed
